@@ -77,6 +77,7 @@ type engRec struct {
 	cancelFn  context.CancelFunc
 	tCmdCancel time.Time
 	cmdCancelled bool
+	slow      time.Duration // slow consumer: the output writer and logger.Error take this long per record
 	tLastScanEnd time.Duration // taken by the worker itself just before Scan returns: <= time of close(done)
 	anyScan   bool
 	wiredBase uint32
@@ -208,6 +209,7 @@ func (e *obsEngine) Start(ctx context.Context, r *scan.Range) (<-chan interface{
 		e.rc.doneSeen, e.rc.haveDone = true, true
 		e.rc.openAtDone = e.rc.open
 		e.rc.tDone = time.Since(e.rc.t0)
+		e.rc.event("done")
 		e.rc.mu.Unlock()
 	}()
 	go func() {
@@ -223,6 +225,9 @@ func (e *obsEngine) Start(ctx context.Context, r *scan.Range) (<-chan interface{
 type recWriter struct{ rc *engRec }
 
 func (w *recWriter) Write(p []byte) (int, error) {
+	if w.rc.slow > 0 {
+		time.Sleep(w.rc.slow)
+	}
 	w.rc.mu.Lock()
 	defer w.rc.mu.Unlock()
 	w.rc.writes++
@@ -238,6 +243,9 @@ type recLogger struct {
 }
 
 func (l *recLogger) Error(err error) {
+	if l.rc.slow > 0 {
+		time.Sleep(l.rc.slow)
+	}
 	l.rc.mu.Lock()
 	defer l.rc.mu.Unlock()
 	var ie *idErr
@@ -345,11 +353,15 @@ func runEngineCase(mode, ws, kinds, sched, cancelAt string) string {
 		maxUs = 300
 	}
 	rc := &engRec{kinds: kinds, lat: latencies(seed, n, maxUs), scanCount: make([]int, n), errCount: make([]int, n),
-		cancelAt: cancelAt, t0: time.Now()}
+		cancelAt: strings.TrimSuffix(cancelAt, "/slow"), t0: time.Now()}
+	if strings.HasSuffix(mode, "-slow") || strings.HasSuffix(cancelAt, "/slow") {
+		rc.slow = 20 * time.Microsecond
+		mode = strings.TrimSuffix(mode, "-slow")
+	}
 	cmdCtx, cmdCancel := context.WithCancel(context.Background())
 	defer cmdCancel()
 	rc.cancelFn = cmdCancel
-	if cancelAt == "start:0" {
+	if rc.cancelAt == "start:0" {
 		rc.cmdCancelled, rc.tCmdCancel = true, time.Now()
 		cmdCancel()
 	}
@@ -390,6 +402,11 @@ func runEngineCase(mode, ws, kinds, sched, cancelAt string) string {
 	if n > 200 && delay < 1500*time.Millisecond {
 		delay = 1500 * time.Millisecond
 	}
+	if cancelAt != "" {
+		// cancellation runs: an exit delay far above the allowed return time, so that a return path that
+		// waits for the delay after Ctrl-C shows (point `done:0` = Ctrl-C during the exit delay)
+		delay = 5 * time.Second
+	}
 	retc := make(chan struct{})
 	var tRet time.Duration
 	var tRetAbs time.Time
@@ -400,9 +417,13 @@ func runEngineCase(mode, ws, kinds, sched, cancelAt string) string {
 		close(retc)
 	}()
 	ret := true
+	limit := 60 * time.Second
+	if cancelAt != "" {
+		limit = 12 * time.Second
+	}
 	select {
 	case <-retc:
-	case <-time.After(60 * time.Second):
+	case <-time.After(limit):
 		ret = false
 	}
 	time.Sleep(2 * time.Millisecond) // let the observer goroutines record
@@ -420,7 +441,7 @@ func runEngineCase(mode, ws, kinds, sched, cancelAt string) string {
 		er = strconv.Itoa(rc.errOther)
 	}
 	if cancelAt != "" {
-		tr := int64(-1)
+		tr := int64(1 << 40)
 		if ret && rc.cmdCancelled {
 			tr = tRetAbs.Sub(rc.tCmdCancel).Milliseconds()
 			if tr < 0 {
@@ -637,6 +658,10 @@ func engineJobs(rng *rand.Rand, tier, comp string) []engJob {
 				add("direct", W, randKinds(rng, 2300+rng.Intn(900), "rrrrrrrrne"), fmt.Sprintf("W%d/>2cap-results", W))
 				add("direct", W, randKinds(rng, 300+rng.Intn(300), "eeexxrn"), fmt.Sprintf("W%d/>cap-errors", W))
 				add("direct", W, strings.Repeat("r", 1200)+strings.Repeat("e", 150)+strings.Repeat("x", 150), fmt.Sprintf("W%d/bursts", W))
+				if W >= 100 {
+					add("direct-slow", W, randKinds(rng, 2300+rng.Intn(400), "rrrrrrrrre"), fmt.Sprintf("W%d/>2cap-results/slow-consumer", W))
+					add("direct-slow", W, randKinds(rng, 400+rng.Intn(200), "eeexxr"), fmt.Sprintf("W%d/>cap-errors/slow-consumer", W))
+				}
 			}
 		}
 		// the engine exactly as the commands wire it (real generator chain, worker option, limiter on/off)
@@ -725,6 +750,7 @@ func engineJobs(rng *rand.Rand, tier, comp string) []engJob {
 			kinds := randKinds(rng, n, "rrrnex")
 			W := []int{1, 2, 7, 100}[rng.Intn(4)]
 			add(W, kinds, "start:0", "start")
+			add(W, kinds, "done:0", "during-exit-delay")
 			cnt := map[string]int{"scan": 0, "put": 0, "err": 0, "write": 0}
 			for _, c := range kinds {
 				switch c {
@@ -759,6 +785,14 @@ func engineJobs(rng *rand.Rand, tier, comp string) []engJob {
 			add(W, kinds, fmt.Sprintf("put:%d", 900+rng.Intn(1200)), "full-buffers/put")
 			add(W, randKinds(rng, 600, "eeexr"), fmt.Sprintf("err:%d", 50+rng.Intn(300)), "full-buffers/err")
 			add(W, kinds, fmt.Sprintf("scan:%d", rng.Intn(2400)), "full-buffers/scan")
+			if W >= 100 {
+				// enough detections to fill results (1000) AND internalResults (1000) behind a slow logger,
+				// with workers blocked inside Put when the cancellation arrives
+				long := randKinds(rng, 3800, "rrrrrrrrrrrre")
+				add(W, long, fmt.Sprintf("write:%d/slow", 200+rng.Intn(300)), "full-buffers/slow-consumer/write")
+				add(W, long, fmt.Sprintf("scan:%d/slow", 3300+rng.Intn(400)), "full-buffers/slow-consumer/scan")
+				add(W, randKinds(rng, 700, "eeeexr"), fmt.Sprintf("err:%d/slow", 20+rng.Intn(100)), "full-buffers/slow-consumer/err")
+			}
 		}
 	}
 	return jobs
